@@ -38,6 +38,12 @@ type Op struct {
 	// rest to later operations and to the pass at the end of the run. An accessor that fills a cache on first use makes
 	// the results depend on this order.
 	Observe string `json:"observe,omitempty"`
+	// OverlapAt > 0 (DeriveChild only): another caller derives a child (index OverlapIndex) of the SAME extended key
+	// while this derivation is in progress — the other derivation runs from start to finish at the moment this one
+	// makes its OverlapAt-th call into the pluggable key (Bytes, Public, Shift). That is the interleaving of two caller
+	// threads at a seam the simulator owns; nothing runs in parallel. Both results must be what the specification says.
+	OverlapAt    int    `json:"overlap_at,omitempty"`
+	OverlapIndex uint32 `json:"overlap_index,omitempty"`
 }
 
 // Config is one run: a curve, a fault plan and a list of operations.
@@ -71,6 +77,18 @@ type world struct {
 	opIndex    int
 	totalPerm  int
 	extraSteps int
+
+	// the overlapping derivation of the current operation (see Op.OverlapAt)
+	ovArmed  bool
+	ovAt     int
+	ovCount  int
+	ovSrc    *slip10.ExtendedKey
+	ovIndex  uint32
+	ovRan    bool
+	ovKey    *slip10.ExtendedKey
+	ovErr    error
+	ovPanic  string
+	ovCalls  int
 	specCalls  int // steps of the specification's retry chain for the current operation (known before the real call)
 }
 
@@ -252,12 +270,43 @@ func newFaultKey(w *world, inner slip10.Key, scalar *big.Int) *faultKey {
 	return &faultKey{w, inner, scalar}
 }
 
-func (k *faultKey) Bytes() []byte   { return k.inner.Bytes() }
+// seam marks a call from the package under test into the pluggable key: the point at which the simulator may let the
+// other caller's derivation of the same extended key run.
+func (w *world) seam() {
+	if !w.ovArmed {
+		return
+	}
+	if w.ovCount++; w.ovCount != w.ovAt {
+		return
+	}
+	w.ovArmed = false
+	// the other derivation has its own fault-plan state: no permanent faults, its own call counter
+	calls, rejects, permAt, wrapped, permFired, spec, extra := w.calls, w.rejects, w.permAt, w.wrapped, w.permFired, w.specCalls, w.extraSteps
+	w.calls, w.rejects, w.permAt, w.permFired, w.specCalls, w.extraSteps = 0, 0, 0, false, 20000, 0
+	func() {
+		defer func() {
+			if p := recover(); p != nil {
+				if sp, ok := p.(stallPanic); ok {
+					w.ovPanic = "stalled: " + sp.why
+					return
+				}
+				w.ovPanic = fmt.Sprintf("%v\n%s", p, debug.Stack())
+			}
+		}()
+		w.ovKey, w.ovErr = w.ovSrc.DeriveChild(w.ovIndex)
+	}()
+	w.ovRan, w.ovCalls = true, w.calls
+	w.calls, w.rejects, w.permAt, w.wrapped, w.permFired, w.specCalls, w.extraSteps = calls, rejects, permAt, wrapped, permFired, spec, extra
+}
+
+func (k *faultKey) Bytes() []byte   { k.w.seam(); return k.inner.Bytes() }
 func (k *faultKey) IsPrivate() bool { return k.inner.IsPrivate() }
 func (k *faultKey) Public() slip10.Key {
+	k.w.seam()
 	return &faultKey{k.w, k.inner.Public(), k.scalar}
 }
 func (k *faultKey) Shift(b []byte) (slip10.Key, error) {
+	k.w.seam()
 	if err := k.w.decide(b); err != nil {
 		return nil, err
 	}
@@ -468,7 +517,41 @@ func (r *runState) step(i int, op *Op, fc faultCurve, mc *ref.SlipCurve) {
 		if kind != ref.OK && kind != ref.ErrPermanent {
 			w.extraSteps = 1
 		}
+		var ovModel *ref.XKey
+		var ovKind ref.ErrKind
+		w.ovArmed, w.ovRan = false, false
+		if op.OverlapAt > 0 && (src.model.Private || r.cfg.Curve != "ed25519") {
+			// the other caller's index: a derivation the specification defines for this parent
+			ix := op.OverlapIndex
+			switch {
+			case !src.model.Private:
+				ix &^= 1 << 31
+			case r.cfg.Curve == "ed25519":
+				ix |= 1 << 31
+			}
+			ovModel, ovKind = src.model.Child(ix, &ref.Faults{Reject: w.reject, Warp: w.warp})
+			w.ovArmed, w.ovAt, w.ovCount, w.ovSrc, w.ovIndex, w.ovRan, w.ovKey, w.ovErr, w.ovPanic = true, op.OverlapAt, 0, src.real, ix, false, nil, nil, ""
+		}
 		call(func() { real, err = src.real.DeriveChild(op.Index) })
+		w.ovArmed = false
+		if w.ovRan {
+			r.res.Probes["derivation_overlapped_by_another_of_the_same_parent"] = 1
+			osig := map[string]any{"curve": r.cfg.Curve, "api": "DeriveChild(overlapping)", "parent": parent, "hardened": w.ovIndex >= 1<<31}
+			owhere := fmt.Sprintf("op %d on %s: DeriveChild(#%d, %d) made by another caller while DeriveChild(#%d, %d) of the same extended key was at its call %d into the pluggable key", i, r.cfg.Curve, srcIndex(op.Src, len(r.handles)), w.ovIndex, srcIndex(op.Src, len(r.handles)), op.Index, op.OverlapAt)
+			switch {
+			case w.ovPanic != "":
+				r.violate("panic:overlapping-derivation", owhere+": "+w.ovPanic, osig)
+				return
+			case ovKind == ref.OK && (w.ovErr != nil || w.ovKey == nil):
+				r.violate("unexpected-error", fmt.Sprintf("%s: returned error %v, the specification defines a key", owhere, w.ovErr), osig)
+				return
+			case ovKind == ref.OK && ovModel != nil:
+				if bad := compare(w.ovKey, ovModel); bad != "" {
+					r.violate("model-divergence:"+bad, fmt.Sprintf("%s: %s differs from the specification (implementation %s, reference %s)", owhere, bad, describeReal(w.ovKey), describeModel(ovModel)), osig)
+					return
+				}
+			}
+		}
 	case "import":
 		// an extended PUBLIC key built by the caller from a point and a chain code (the fields of ExtendedKey are
 		// exported): the parent is chosen as Q - s*G for a special point Q (x = 0), and the pluggable curve uses the
@@ -618,6 +701,14 @@ func (r *runState) step(i int, op *Op, fc faultCurve, mc *ref.SlipCurve) {
 			return
 		}
 	}
+	// the extended key the operation started from, in full as well: deriving from a key (or from its public twin) must
+	// not change what the key itself, its public key or its fingerprint are
+	if src != nil && op.Observe != "lazy" {
+		if bad := compare(src.real, src.model); bad != "" {
+			r.violate("model-divergence:earlier-key-changed", fmt.Sprintf("%s: %s of the extended key the operation was applied to no longer matches the specification (now %s, specification %s)", where, bad, describeReal(src.real), describeModel(src.model)), sig)
+			return
+		}
+	}
 	for j, h := range r.handles {
 		if !bytes.Equal(h.real.Key.Bytes(), h.model.Key) || !bytes.Equal(h.real.ChainCode, h.model.ChainCode) {
 			r.violate("model-divergence:receiver-mutated", fmt.Sprintf("%s: extended key #%d changed (now %s, specification %s)", where, j, describeReal(h.real), describeModel(h.model)), sig)
@@ -759,6 +850,9 @@ func Gen(seed uint64, tier string) *Config {
 		switch x := r.IntN(100); {
 		case x < 60:
 			o = Op{Kind: "child", Src: r.IntN(16), Index: genIndex()}
+			if r.IntN(8) == 0 {
+				o.OverlapAt, o.OverlapIndex = 1+r.IntN(3), genIndex()
+			}
 		case x < 63 && c.Curve == "nist256p1":
 			// an imported public parent whose next non-hardened child is a point with x = 0, and that child right away
 			o = Op{Kind: "import", Index: uint32(r.IntN(2)), SeedHex: genSeed()}
